@@ -346,11 +346,42 @@ def ev_k(case, rec):
     rec.sample({'dofs': '-5..200'})
 
 
+# --- two threads working at DIFFERENT sites at the same time ----------
+from gpmc import threads as _thr
+import datetime as _dtm
+import numpy as _tnp
+import geodepy.constants as _tgc
+import geodepy.transform as _tgt
+import geodepy.convert as _tgv
+import geodepy.geodesy as _tgg
+import geodepy.statistics as _tgs
+import geodepy.survey as _tsv
+import geodepy.angles as _tga
+_V1 = [[1e-4, 2e-5, -1e-5], [2e-5, 4e-4, 3e-5], [-1e-5, 3e-5, 9e-4]]
+_V2 = [[9e-3, -2e-3, 1e-3], [-2e-3, 5e-3, 2e-3], [1e-3, 2e-3, 7e-3]]
+T_CALLS = {
+    'rot_alice': lambda: (lambda: _tgs.rotation_matrix(-23.67, 133.88)),
+    'rot_m1': lambda: (lambda: _tgs.rotation_matrix(-1.0, 133.88)),
+    'rot_m2': lambda: (lambda: _tgs.rotation_matrix(-2.0, 133.88)),
+    'c2l_a': lambda: (lambda v=_tnp.array(_V1): _tgs.vcv_cart2local(v, -23.67, 133.88)),
+    'c2l_b': lambda: (lambda v=_tnp.array(_V2): _tgs.vcv_cart2local(v, 45.5, -73.6)),
+    'l2c_col': lambda: (lambda v=_tnp.array([[1e-4], [2e-4], [3e-4]]): _tgs.vcv_local2cart(v, -33.5, 151.2)),
+    'ellipse': lambda: (lambda v=_tnp.array(_V2): _tgs.error_ellipse(v)),
+    'relerr': lambda: (lambda: _tgs.relative_error(-23.67, 133.88, _tnp.array(_V1), _tnp.array(_V2), _tnp.array(_V1) * 0.3)),
+    'enu2xyz': lambda: (lambda: _tgg.enu2xyz(-35.0, 149.0, 1.0, -2.0, 3.0)),
+    'xyz2enu': lambda: (lambda: _tgg.xyz2enu(60.0, 25.0, 1.0, -2.0, 3.0)),
+    'k95': lambda: (lambda: _tgs.k_val95(7)),
+}
+_tg, _te = _thr.make(T_CALLS, ['geodepy/statistics.py', 'geodepy/geodesy.py'], 'statistics:threads',
+                     quick=['rot_alice', 'rot_m1', 'rot_m2', 'c2l_a', 'c2l_b', 'relerr'], triple=('c2l_a', 'c2l_b', 'enu2xyz'))
+
+
 SUBCHECKS = [
     Sub('frame', gen_frame, ev_frame, chunk=2, floor=200, guard=True, envs=3),
     Sub('vcv', gen_vcv, ev_vcv, chunk=1, floor=200, guard=True, envs=3),
     Sub('ellipse', gen_ell, ev_ell, chunk=1, floor=30, guard=True, envs=2),
     Sub('ktable', gen_k, ev_k, chunk=1, floor=200, parallel=False, guard=True),
+    Sub('threads', _tg, _te, chunk=1, floor=3, poison=False),
 ]
 
 
